@@ -758,6 +758,31 @@ func panicSites(p *packages.Package) []string {
 							add("recursive-call", x)
 						}
 					}
+					// a call into another module that hands back a pointer and no error: nil is its way
+					// of saying "nothing" (pem.Decode, asn1 helpers, map-like lookups)
+					{
+						var callee *types.Func
+						switch f := x.Fun.(type) {
+						case *ast.Ident:
+							callee, _ = p.TypesInfo.Uses[f].(*types.Func)
+						case *ast.SelectorExpr:
+							callee, _ = p.TypesInfo.Uses[f.Sel].(*types.Func)
+						}
+						if callee != nil && callee.Pkg() != nil && !strings.HasPrefix(callee.Pkg().Path(), "github.com/notaryproject/notation-core-go") {
+							if sig, ok := callee.Type().(*types.Signature); ok && sig.Results().Len() >= 1 {
+								_, ptr := sig.Results().At(0).Type().Underlying().(*types.Pointer)
+								hasErr := false
+								for k := 0; k < sig.Results().Len(); k++ {
+									if sig.Results().At(k).Type().String() == "error" {
+										hasErr = true
+									}
+								}
+								if ptr && !hasErr && !strings.HasPrefix(callee.Name(), "New") {
+									add("may-be-nil", x.Fun)
+								}
+							}
+						}
+					}
 				case *ast.BinaryExpr:
 					if x.Op == token.QUO || x.Op == token.REM {
 						if tv, ok := p.TypesInfo.Types[x.Y]; ok && tv.Value == nil {
